@@ -148,6 +148,13 @@ where
     }
 }
 
+#[cfg(bma400_verif)]
+impl AccConfig {
+    pub(crate) fn verif_visit(&mut self, f: &mut dyn FnMut(u8, u8) -> Option<u8>) {
+        verif_visit_fields!(self, f, acc_config0: AccConfig0, acc_config1: AccConfig1, acc_config2: AccConfig2);
+    }
+}
+
 #[cfg(test)]
 mod tests {
     use super::*;
